@@ -141,7 +141,7 @@ def run(cx):
         IOERR = r'StreamExt::poll_next_unpin\(arg1\.stream,arg2\)@Ready\.0@Some\.0@Err\.0'
         EOF_ = r'into<NetError>\(Error::new\(ErrorKind::(UnexpectedEof|ConnectionReset|ConnectionAborted|NotConnected|BrokenPipe),[^()]*\)\)'
         for s_ in ca:
-            ok = bool(re.fullmatch(rf'DnsMultiplexer::stream_closed_close_all\(arg1,(phi\(({IOERR}|{EOF_})(\|({IOERR}|{EOF_}))*\)|{IOERR}|{EOF_})\)', s_.term))
+            ok = bool(re.fullmatch(rf'DnsMultiplexer::stream_closed_close_all\((?:arg1|var\(_\d+\)),(phi\(({IOERR}|{EOF_})(\|({IOERR}|{EOF_}))*\)|{IOERR}|{EOF_})\)', s_.term))
             cx.check('C18.T2', ok, mx_.path, s_.key(), 'pending-requests-fail-with-the-stream-error-or-Io(connection-closed-kind)', s_.term[:220], s_.loc,
                      sample={'fn': 'DnsMultiplexer::poll_next', 'error': s_.term[-120:], 'holds': ok})
     ic = cx.fn('C18.T2', 'hickory_net::error::NetError::is_connection_closed')
@@ -150,6 +150,25 @@ def run(cx):
         cx.guard('C18.T2', tr, {'io-error': r'^is\(arg1,Io\)$', 'kind-is-a-closed-connection': r'^in\(Error::kind\(arg1@Io\.0\),ConnectionReset\|ConnectionAborted\|NotConnected\|BrokenPipe\|UnexpectedEof\)$'}, expect=1, fn=ic)
 
     # ---------------------------------------------------------------- N1 argument names agree with the parameters they are bound to (engine/argnames.py)
+    # ---------------------------------------------------------------- L1 no slow await under a mutex of the name-server path
+    # the deadline is checked between attempts, nothing bounds a wait for a mutex: an `.await` evaluated while a guard is held makes
+    # every other lookup that needs the same server queue behind whatever is awaited (a connect that runs into connect_timeout).
+    # The only await under a guard on today's tree is the short acquisition of the shared transport state under the per-server
+    # connection list in connected_mut_client; anything else (engine/locks.py) is reported.
+    import locks
+    LOCK_OK = {('hickory_resolver::name_server::NameServer::connected_mut_client::{closure#0}', r'^PoolContext::transport_state\(\^arg3\)$')}
+    surveyed = 0
+    for p_, g_ in sorted(cx.prog.fns.items()):
+        if g_.crate != 'hickory_resolver' or '::tests::' in p_ or not locks.guards(g_):
+            continue
+        surveyed += 1
+        for gl, gty, bb, term in locks.awaits_under(g_):
+            t_ = shorten(term)
+            ok = any(p_ == fp and re.search(rx_, t_) for fp, rx_ in LOCK_OK)
+            cx.check('C18.L1', ok, p_, 'await:' + t_[:60], 'no-await-under-a-mutex-guard(other than the transport-state lock)',
+                     f'`{t_[:140]}` is awaited while a guard of type {shorten(gty)[:80]} is held', g_.loc(bb),
+                     sample={'fn': shorten(p_ + '(')[:-1], 'awaited': t_[:100], 'guard': shorten(gty)[:80], 'holds': ok})
+    cx.floor('C18.L1', surveyed, 8, 'resolver functions that hold a mutex guard (surveyed for awaits under the guard)')
     argnames.check(cx, 'C18.N1', r'hickory_resolver::(connection_provider|name_server|name_server_pool)', floor=50)
     argnames.check_fields(cx, 'C18.N1', r'hickory_resolver::(connection_provider|name_server|name_server_pool)', floor=16)
 
